@@ -311,9 +311,11 @@ func phaseServer(r *mon.Run, only int) {
 					cls = cls[:j]
 				}
 				r.Violation("server-wedged:"+cls, fmt.Sprintf("twice, on fresh servers: the stage %q (first run: %q) did not complete within %v; start-up configuration %+v", again, stage, serverWatchdog, *sc), rc)
-			} else {
-				r.Inconclusive("server-watchdog-not-reproduced")
+				r.Eval(1)
+				r.Inconclusive("server-phase-abandoned-after-wedge") // every further wedge costs two watchdogs; the witness is recorded
+				return
 			}
+			r.Inconclusive("server-watchdog-not-reproduced")
 		}
 		r.Eval(1)
 		r.Event("server_configurations", 1)
